@@ -95,7 +95,7 @@ ASSUMPTIONS = [
     "Brenner factor: distances h >= R(1+1e-3) in generated cases (the denominator vanishes at h = R; cancellation amplifies rounding by 1/(1-R/h))",
     "bead-bead separations d >= 2R(1+1e-6) in generated cases (closer: open finding F9, corpus only)",
     "molality <= 5.9 mol/kg (5.25 M) in generated cases: at the model's edge m = 6 the brentq round trip lands a rounding error outside the validity check",
-    "public water functions (waterseq): molarity <= 5 M for T <= 90 C and <= 4.7 M above (molality stays below ~5.8 mol/kg, away from the validity edge), viscosity_of_water(T, 0.0) without a pressure is not generated (0.0 is falsy: the code answers with the Huber formula), molarity None is only generated without a pressure",
+    "public water functions (waterseq): molarity <= 5 M for T <= 90 C and <= 4.7 M above (molality stays below ~5.8 mol/kg, away from the validity edge), viscosity_of_water(T, 0.0) without a pressure is not generated (0.0 is falsy: the code answers with the Huber formula)",
     "after _set_drag the oracle accepts the published spectrum with either bulk drag coefficient (the one the model was built with, which is what the code and the model keep, or the transferred one): the property does not say which; the distance to the surface, radius and densities must be the model's",
     "Stimson-Jeffery factors for unequal radii: judged by the oracle only (bounds, label-swap symmetry to 1e-8, agreement with the method-of-reflections expansion 1 - 3/2 b/d + 9/4 ab/d^2 to 5 (max(a,b)/d)^3 for max(a,b)/d <= 0.2, the equal-sphere series when the radii coincide)",
     "Stimson-Jeffery series, 2-D coupling, equipartition of the hydrodynamic spectrum, monotonicity of the salt models: explored by the oracle only (no theorem)",
@@ -748,6 +748,7 @@ def o_water(fn, t, c, p):
     if not salt:
         return o_visc_huber(t) if -20 <= t < 110 else "ValueError"
     p = 0.101325 if p is None else p
+    c = 0.0 if c is None else c  # "when pressure and/or molality are provided": a pressure alone is pure water at p
     if not (20 <= t < 150) or p > 35:
         return "ValueError"
     if c < 0 or c > 5.5:  # 5.5 M is beyond 6 mol/kg at every temperature and pressure of the model
@@ -1155,7 +1156,7 @@ def _oracle_waterseq(c, vals, ia):
             if not v > 0:
                 return f"salt-positive: {what} = {v!r}"
             if fn == "D" or bool(p) or bool(cc):
-                seen.setdefault((fn, t, 0.101325 if p is None else p), []).append((cc, v, qi))
+                seen.setdefault((fn, t, 0.101325 if p is None else p), []).append((0.0 if cc is None else cc, v, qi))
     for (fn, t, p), lst in seen.items():
         lst.sort()
         for (c1, v1, q1), (c2, v2, q2) in zip(lst, lst[1:]):
@@ -1381,6 +1382,9 @@ def corpus():
     # a buffer series looked up at the two ends of the pressure range, one after the other, in one process
     yield water_sequence("corpus", [("V", 20.0, 3.0, None), ("D", 20.0, 3.0, None), ("V", 20.0, 3.0, 35.0), ("D", 20.0, 3.0, 35.0),
                                     ("V", 20.0, 3.01, 35.0), ("D", 20.0, 3.01, 35.0), ("V", 20.0, 3.0, 0.1), ("D", 20.0, 3.0, 0.1)])
+    # F23: a pressure alone is pure water at that pressure (used to raise TypeError)
+    yield water_sequence("corpus", [("V", 25.0, None, 10.0), ("V", 25.0, 0.0, 10.0), ("V", [25.0, 30.0], None, 35.0), ("V", 25.0, 1e-6, 10.0),
+                                    ("V", 19.0, None, 10.0)])
     yield water_sequence("corpus", [("V", [25.0, 60.0], 1.0, 35.0), ("V", 25.0, 1.0, 0.101325), ("V", 60.0, 1.0, 0.101325),
                                     ("D", [60.0, 25.0], 1.0, None), ("V", 25.0, None, None), ("V", 10.0, 1.0, 1.0), ("D", 25.0, 1.0, 35.0)])
 
@@ -1671,6 +1675,8 @@ def random_water_sequence(s, i):
                                 (T, s.uniform(5.6, 9.0), p)])
         if fn == "V" and p is None and c == 0.0:
             c = None  # plain water: the Huber formula (its range is -20..110)
+        elif fn == "V" and p is not None and (c == 0.0 or s.chance(0.08)) and s.chance(0.6):
+            c = None  # a pressure alone: the salt model at 0 M (F23)
         qs.append((fn, T, c, p))
     return water_sequence("random", qs, subseed=i)
 
